@@ -81,6 +81,12 @@ CHECKS.update({
    note=EDIT_NOTE + " Writes through a view synthesized for an attrpath family root (src['f'] for f.x / f.y) are left unspecified; only wrappers that the mapping API's own target resolution supports are used.",
    tech="TLA+ mapping semantics (TLC-checked laws) + TLC trace validation of real get/set/del histories"),
 })
+CHECKS.update({
+ "C13": dict(engine="values", cat="model_checking", ref="DESIGN.md §7 C13",
+   text="Values.tla specifies reading Nix data back (string decoding, the Nix float token, negative numbers as unary minus, lists, attribute sets); TLC checks decode(escape(s)) = s for every string over the escaping classes and enumerates values x construction routes; each is rendered by the real API (twice), re-parsed twice, read back by the independent reader, and TLC (Values_Trace) judges validity, ReadBack, determinism and stability.",
+   note="Trusted: TLC; Values!Reads as definition of 'read back as Nix data' (no Nix evaluator offline); harness/project.py data(). Exhaustive over the value palette of MC_Values (strings <= 2/3 characters over 11 classes, ints incl. 64-bit extremes, 9 float classes, lists/dicts/nestings) x 7 routes.",
+   tech="TLA+ read-back semantics + TLC-judged real renderings of TLC-enumerated values"),
+})
 import os
 built = {p: m for p, m in CHECKS.items()}
 checks = []
@@ -120,6 +126,8 @@ man = {
     "kind_free_text": "law instances from spec/Edit.tla transitions -> twin executions on the real code -> spec/Laws_Trace.tla"},
    {"name": "mapping", "path": "harness/engines/mapping.py", "serves_properties": ["C14"],
     "kind_free_text": "spec/Mapping.tla (extends Edit/Doc) -> real item get/set/del histories on one object -> spec/Mapping_Trace.tla"},
+   {"name": "values", "path": "harness/engines/values.py", "serves_properties": ["C13"],
+    "kind_free_text": "spec/Values.tla + MC_Values (values x routes) -> real construction API -> spec/Values_Trace.tla"},
  ],
  "checks": checks,
  "notes": "All checks: ./check <ID> [--tier quick|thorough]; VERIF_SEED / VERIF_TIER honoured. Known findings: known_findings.json. See DESIGN.md.",
